@@ -15,6 +15,10 @@ func init() {
 		register(&Prop{ID: id,
 			Run: func(c *Ctx) {
 				runPoolWorlds(c, id, nil)
+				if id == "C06" {
+					// the per-interface limit the pool is started with: limits -> checkInstance / getPoolConfig (c19.go)
+					c06ConfigRun(c, c.Scale(400, 8000))
+				}
 				if id == "C01" {
 					// exclusivity across a daemon restart (the pool is rebuilt from the stored records by Local.load): the
 					// daemon world of C05 with its restart / crash ops; its double-allocation and lost-binding monitors count
@@ -30,6 +34,9 @@ func init() {
 				}
 			},
 			Exec2: func(c *Ctx, ops []string) ([]string, []string) {
+				if len(ops) > 0 && strings.HasPrefix(ops[0], "cap.") {
+					return ops, pureExec(c19Exec)(c, ops)
+				}
 				if len(ops) > 0 && strings.HasPrefix(ops[0], "dm.") {
 					sub := &Ctx{Tier: c.Tier, Seed: c.Seed, R: c.R, Dist: c.Dist, Extra: c.Extra, Replay: c.Replay}
 					l, o := runDaemonWorld(sub, "C05", ops)
